@@ -11,7 +11,8 @@ broadcast_gradients = True over the data-parallel group) and the bucketing commu
 
 All ranks run the same history in lock step; a collective appears ONCE, with its member list,
 and rank r's program is the sub-sequence of the collectives it is a member of.  Scope: training
-passes and steps (`f1`, `s`), factors updated in the hooks or in `step()`
+passes and steps (`f1`, `s`), checkpoints (`state_dict()` in memory or into a directory, load into a
+fresh or into the running preconditioner), factors updated in the hooks or in `step()`
 (`update_factors_in_hook`), any `accumulation_steps` (every layer sees every pass: one counter of
 micro-batches).  Import-free, executable.
 -/
@@ -21,7 +22,7 @@ import KfacVerif.Model.Comm
 namespace KV.NeoxS
 open KV KV.Neox
 
-inductive Kind where | allreduce | broadcast | allgather | reducescatter
+inductive Kind where | allreduce | broadcast | allgather | reducescatter | gatherobj | barrier
 deriving Repr, DecidableEq
 
 /-- one collective: every member enters it; `elems` = element count of the tensor each member
@@ -81,6 +82,7 @@ structure St where
   steps : Nat := 0
   mini : Nat := 0            -- `_mini_steps` (the same for every layer: every layer sees every pass)
   tid : Nat := 0
+  kept : Nat := 0            -- step count recorded by the last `state_dict()`
   comm : Comm.CState
   acts : List NAct := []
 deriving Repr
@@ -187,12 +189,48 @@ def stepOp (c : Cfg) (s : St) : St :=
   let s := flush s
   { s with steps := s.steps + 1, mini := 0 }
 
-inductive Op where | train | step
+/-! ### checkpoints (kfac/gpt_neox/preconditioner.py: state_dict / save_factors_to_dir / load_state_dict)
+
+`state_dict()` gathers the inverse workers' factors with `all_gather_object` over a world-wide (gloo)
+group and ends with a barrier on it; with `factor_checkpoint_dir` set it is one world-wide barrier
+(after rank 0 created the directory) followed by file writes.  `load_state_dict()` ends with a
+world-wide barrier in memory mode and issues nothing in directory mode.  None of these calls is
+short-circuited for a world of one.  Second-order data is recomputed locally, never communicated. -/
+
+def worldGroup (c : Cfg) : List Nat := List.range c.t.world
+
+def emitWorld (c : Cfg) (s : St) (k : Kind) : St :=
+  { s with acts := s.acts ++ [{ members := worldGroup c, kind := k, elems := 1, root := 0 }] }
+
+/-- `state_dict()`; remembers the step count it stores -/
+def saveOp (c : Cfg) (dir : Bool) (s : St) : St :=
+  let s := if dir then emitWorld c s .barrier
+           else emitWorld c (emitWorld c s .gatherobj) .barrier
+  { s with kept := s.steps }
+
+/-- `load_state_dict(kept state)`; `fresh` = into a newly constructed preconditioner (empty buckets),
+    otherwise into the running one -/
+def loadOp (c : Cfg) (dir fresh : Bool) (s : St) : St :=
+  let s := if dir then s else emitWorld c s .barrier
+  { s with steps := s.kept, mini := 0,
+           comm := if fresh then { cap := c.cap, buckets := [] } else s.comm }
+
+inductive Op where
+  | train | step
+  | save (dir : Bool)
+  | load (dir fresh : Bool)
 deriving Repr, DecidableEq
+
+def Op.isCkpt : Op → Bool
+  | .save _ => true
+  | .load _ _ => true
+  | _ => false
 
 def apply (c : Cfg) (s : St) : Op → St
   | .train => trainPass c s
   | .step => stepOp c s
+  | .save dir => saveOp c dir s
+  | .load dir fresh => loadOp c dir fresh s
 
 def run (c : Cfg) (ops : List Op) : St := ops.foldl (apply c) (St.init c)
 
